@@ -439,7 +439,13 @@ def cookie_handshake_case():
         now = str(int(time.time())).encode('ascii')
         with open(os.path.join(tmp, 'org_freedesktop_general'), 'wb') as f:
             f.write(b'7 ' + now + b' c00c1e\n' + b'12 ' + now + b' 5ec2e7\n')
+        # cookie contexts are file names: anything but '/', '\\', white space and control characters is allowed in them
+        for other in ('session-bus', 'org.example.ctx', 'ctx+1'):
+            with open(os.path.join(tmp, other), 'wb') as f:
+                f.write(b'3 ' + now + b' 0ddc00c1e\n')
         challenges = [('stored cookie', b'org_freedesktop_general 12 feedbeef', b'5ec2e7'), ('id not in the keyring', b'org_freedesktop_general 99 feedbeef', None),
+                      ('stored cookie, context with a hyphen', b'session-bus 3 feedbeef', b'0ddc00c1e'), ('stored cookie, context with dots', b'org.example.ctx 3 feedbeef', b'0ddc00c1e'),
+                      ('stored cookie, context with a plus sign', b'ctx+1 3 feedbeef', b'0ddc00c1e'),
                       ('no such keyring', b'no_such_context 12 feedbeef', None), ('two tokens only', b'org_freedesktop_general 12', None),
                       ('empty challenge', b'', None)]
         # the keyring directory may be searchable by others (the specification forbids only reading and writing by them)
